@@ -609,6 +609,23 @@ def _worker_entry(a):
         pass
     try:
         mod = __import__(modname, fromlist=["x"])
+        orig = getattr(mod, "run_unit", None)
+        if orig is not None and not getattr(orig, "_guarded", False):
+            # a monitor that cannot interpret what it observed on one unit must not take the other units of this worker with
+            # it: the unit is inconclusive (and so is the verdict, unless a violation is found), the worker goes on
+            def guarded(c, unit, *a, **k):
+                try:
+                    return orig(c, unit, *a, **k)
+                except MemoryError:
+                    raise
+                except Exception:
+                    c.stats.inconc("worker_exception")
+                    if len(c.stats.notes) < 3:
+                        c.stats.notes.append("monitor raised on a unit (worker %d): %s" % (c.idx, traceback.format_exc()[-1500:]))
+                    if c.stats.inconclusive.get("worker_exception", 0) > 50:
+                        raise
+            guarded._guarded = True
+            mod.run_unit = guarded
         getattr(mod, fname)(ctx)
     except Exception:
         ctx.stats.notes.append("worker %d crashed: %s" % (idx, traceback.format_exc()[-2000:]))
